@@ -39,7 +39,8 @@ func sortStrings(a []string) {
 
 func graphCase(issuers []int, dup bool) { graphCase2(issuers, b01(dup)) }
 
-// dup: 0 none, 1 a second file resolving to an existing alias, 2 two config files with different aliases but the same stem
+// dup: 0 none, 1 a second file resolving to an existing alias, 3/4 the same inside one directory (same stem, other suffix),
+// 2 two config files with different aliases but the same stem
 // (a.yaml / a.yml): they would share one artifact file and must be refused as well (F20)
 func graphCase2(issuers []int, dupKind int) {
 	dup := dupKind == 1
@@ -59,6 +60,14 @@ func graphCase2(issuers []int, dupKind int) {
 	if dup {
 		// a second file resolving to the alias e0 through an explicit alias
 		m["other/x.yaml"] = &fstest.MapFile{Data: []byte("version: 1\nalias: e0\nsubject: CN=dup\n"), Mode: 0644, ModTime: t0}
+	}
+	if dupKind == 3 { // same directory, same stem, same (implicit) alias, different suffix
+		m["twin/t.yaml"] = &fstest.MapFile{Data: []byte("version: 1\nsubject: CN=twin one\n"), Mode: 0644, ModTime: t0}
+		m["twin/t.yml"] = &fstest.MapFile{Data: []byte("version: 1\nsubject: CN=twin two\n"), Mode: 0644, ModTime: t0}
+	}
+	if dupKind == 4 { // the same with an explicit alias and suffixes in different case
+		m["twin/ca.json"] = &fstest.MapFile{Data: []byte(`{"version": 1, "alias": "shared", "subject": "CN=twin one"}`), Mode: 0644, ModTime: t0}
+		m["twin/ca.YAML"] = &fstest.MapFile{Data: []byte("version: 1\nalias: shared\nsubject: CN=twin two\n"), Mode: 0644, ModTime: t0}
 	}
 	if dupKind == 2 {
 		m["twin/t.yaml"] = &fstest.MapFile{Data: []byte("version: 1\nalias: twin-one\nsubject: CN=twin one\n"), Mode: 0644, ModTime: t0}
@@ -122,6 +131,10 @@ func streamGraph() {
 	graphCase([]int{-1, 0}, true)
 	graphCase([]int{-1, 0, 1}, true)
 	graphCase([]int{-1, -1, 0, 1}, true)
+	for _, k := range []int{3, 4} {
+		graphCase2([]int{-1}, k)
+		graphCase2([]int{-1, 0}, k)
+	}
 	graphCase2([]int{-1}, 2)
 	graphCase2([]int{-1, 0, 1}, 2)
 	graphCase2([]int{-1, -1, 0, 1}, 2)
